@@ -51,6 +51,20 @@ def impl_codec(case):
             why = 'bin() differs from bytes()'
         elif not (mido.Message.from_bytes(m.bin(), time=t) == m):
             why = 'from_bytes(bin()) differs'
+        if not why:
+            # what bytes()/bin() hand out belongs to the caller: changing it must not change what the next call returns
+            # (for this message or for another one of the same type)
+            snapshot = list(bs)
+            try:
+                bs.extend([0x90, 60, 100])
+            except AttributeError:
+                pass
+            bb = m.bin()
+            if isinstance(bb, bytearray):
+                bb.extend(b'\x90\x3c\x64')
+            again = list(mido.Message(name, time=t, **kw).bytes())
+            if again != snapshot or list(m.bytes()) != snapshot or bytes(m.bin()) != bytes(snapshot):
+                why = 'after the list returned by bytes() was modified by its caller, bytes() returns %r instead of %r' % (again, snapshot)
         if why:
             fail = ('codec:' + name, '%s with %r time=%r: %s' % (name, kw, t, why))
     except Exception as e:  # noqa: BLE001
